@@ -166,3 +166,70 @@ fn strlex_hex_l3() { hex_vs_ref::<3>() }
 #[kani::proof]
 #[kani::stub(std::fmt::format, nofmt)]
 fn strlex_hex_l4() { hex_vs_ref::<4>() }
+
+/// one call of next_lexeme from an ARBITRARY lexer state (position, nesting depth) on an arbitrary buffer:
+/// inductive step of the literal-string decoder against the reference step function.
+/// Reference step: (Some(Some(b)) byte produced | Some(None) string ended | None error/truncated, new pos, new depth)
+fn lit_step_ref<const L: usize>(d: &[u8; L], mut i: usize, mut depth: i32) -> (Option<Option<u8>>, usize, i32) {
+    loop {
+        if i >= L { return (None, i, depth); }
+        let c = d[i]; i += 1;
+        if c == b'\\' {
+            if i >= L { return (None, i, depth); }
+            let e = d[i]; i += 1;
+            match e {
+                b'n' => return (Some(Some(b'\n')), i, depth), b'r' => return (Some(Some(b'\r')), i, depth),
+                b't' => return (Some(Some(b'\t')), i, depth), b'b' => return (Some(Some(8)), i, depth),
+                b'f' => return (Some(Some(12)), i, depth), b'(' => return (Some(Some(b'(')), i, depth),
+                b')' => return (Some(Some(b')')), i, depth), b'\\' => return (Some(Some(b'\\')), i, depth),
+                b'\n' => { continue; }
+                b'\r' => { if i < L && d[i] == b'\n' { i += 1; } continue; }
+                b'0'..=b'7' => {
+                    let mut v = (e - b'0') as u32; let mut k = 0;
+                    while k < 2 && i < L && d[i] >= b'0' && d[i] <= b'7' { v = v * 8 + (d[i] - b'0') as u32; i += 1; k += 1; }
+                    if i >= L && k < 2 { return (None, i, depth); }     // code may continue beyond the buffer: truncated
+                    return (Some(Some((v & 0xff) as u8)), i, depth);
+                }
+                other => return (Some(Some(other)), i, depth),
+            }
+        } else if c == b'(' { return (Some(Some(c)), i, depth + 1); }
+        else if c == b')' { if depth == 0 { return (Some(None), i, depth - 1); } return (Some(Some(c)), i, depth - 1); }
+        else { return (Some(Some(c)), i, depth); }
+    }
+}
+fn lit_step<const L: usize>(continuation: bool) {
+    let buf: [u8; L] = kani::any();
+    let pos: usize = kani::any();
+    let nested: i32 = kani::any();
+    kani::assume(pos <= L && nested >= 0 && nested < 1000);
+    // next_lexeme calls itself after a line continuation (backslash + end-of-line). The two cases are split so that the
+    // recursion can be bounded exactly: without a continuation at `pos` there is no recursive call at all.
+    let is_cont = pos + 1 < L && buf[pos] == b'\\' && (buf[pos + 1] == b'\n' || buf[pos + 1] == b'\r');
+    kani::assume(is_cont == continuation);
+    let (want, wpos, wdepth) = lit_step_ref(&buf, pos, nested);
+    let mut sl = StringLexer { pos, nested, buf: &buf };
+    let got = sl.next_lexeme();
+    assert!(sl.get_offset() <= L);
+    if let Some(w) = want {
+        let ok = match (&got, w) { (Ok(Some(a)), Some(b)) => *a == b, (Ok(None), None) => true, _ => false };
+        assert!(ok);
+        assert!(sl.get_offset() == wpos);
+        assert!(sl.nested == wdepth);
+    }
+    std::mem::forget(got);
+}
+#[kani::proof]
+#[kani::stub(std::fmt::format, nofmt)]
+fn strlex_lit_step_l2() { lit_step::<2>(false) }
+#[kani::proof]
+#[kani::stub(std::fmt::format, nofmt)]
+fn strlex_lit_step_l3() { lit_step::<3>(false) }
+#[kani::proof]
+#[kani::stub(std::fmt::format, nofmt)]
+fn strlex_lit_step_l4() { lit_step::<4>(false) }
+#[kani::proof]
+#[kani::stub(std::fmt::format, nofmt)]
+fn strlex_lit_step_l5() { lit_step::<5>(false) }
+#[kani::proof]
+#[kani::stub(std::fmt::format, nofmt)]
+fn strlex_lit_step_cont_l4() { lit_step::<4>(true) }
